@@ -390,7 +390,7 @@ Section P.
 
   Theorem run_inspections_ok path dsse w insps acc tr imeta w' tr' :
     run_inspections path dsse w insps acc tr = (Ok (imeta, w'), tr') ->
-    insp_run dsse w insps acc w' imeta /\ tr' = tr ++ map (fun i => EvRunInspection path (i_name i)) insps.
+    insp_run dsse w insps acc w' imeta /\ tr' = tr ++ flat_map (insp_event path) insps.
   Proof.
     revert w acc tr. induction insps as [|i r IH]; intros w acc tr; simpl.
     - intro H; inversion H; subst. split; [constructor | rewrite app_nil_r; reflexivity].
@@ -410,19 +410,19 @@ Section P.
 
   Theorem run_inspections_fail_retval path dsse w i r acc tr l w1 :
     run_insp dsse w i = Ok (l, w1) -> retval_zero l = false ->
-    run_inspections path dsse w (i :: r) acc tr = (Err e_retval, tr ++ [EvRunInspection path (i_name i)]).
+    run_inspections path dsse w (i :: r) acc tr = (Err e_retval, tr ++ insp_event path i).
   Proof. intros H1 H2. simpl. rewrite H1, H2. reflexivity. Qed.
 
   Lemma run_inspections_trace_ext path dsse w insps acc tr x tr' :
     run_inspections path dsse w insps acc tr = (x, tr') ->
-    exists n, tr' = tr ++ map (fun i => EvRunInspection path (i_name i)) (firstn n insps).
+    exists n, tr' = tr ++ flat_map (insp_event path) (firstn n insps).
   Proof.
     revert w acc tr. induction insps as [|i r IH]; intros w acc tr; simpl.
     - intro H; inversion H; subst. exists O. rewrite app_nil_r. reflexivity.
     - destruct (run_insp dsse w i) as [[l w1]|c|p] eqn:Hr.
       + destruct (retval_zero l).
         * intro H. apply IH in H as [n Hn]. exists (S n). rewrite Hn, <- app_assoc. reflexivity.
-        * intro H; inversion H; subst. exists 1%nat. reflexivity.
+        * intro H; inversion H; subst. exists 1%nat. simpl. rewrite app_nil_r. reflexivity.
       + intro H; inversion H; subst. exists O. rewrite app_nil_r. reflexivity.
       + intro H; inversion H; subst. exists O. rewrite app_nil_r. reflexivity.
   Qed.
@@ -577,7 +577,7 @@ Section P.
 
   (* ---------- the trace of one level, whatever the outcome ---------- *)
   Definition insp_events (path : list str) (insps : list inspection) : list event :=
-    map (fun i => EvRunInspection path (i_name i)) insps.
+    flat_map (insp_event path) insps.
 
   (* [early]: the run stopped before any link file was read and before anything else happened *)
   Definition early (w w' : World) (tr : list event) : Prop := tr = [] /\ w' = w.
@@ -662,7 +662,8 @@ Section P.
       apply Forall_app; split.
       + eapply Forall_impl; [|exact Hadd]. intros ev [[q [_ Hq]]|[sn' [ls [k [e' [-> _]]]]]]; [exists q; exact Hq|].
         exists []. simpl. rewrite app_nil_r. reflexivity.
-      + unfold insp_events. apply Forall_forall. intros ev Hin. apply in_map_iff in Hin as [i [<- _]].
+      + unfold insp_events. apply Forall_forall. intros ev Hin. apply in_flat_map in Hin as [i [_ Hi]].
+        unfold insp_event in Hi. destruct (is_nil (i_run i)); [contradiction|]. destruct Hi as [<-|[]].
         exists []. simpl. rewrite app_nil_r. reflexivity.
   Qed.
 
